@@ -11,8 +11,8 @@ Value kinds defined here
            from.  The ghost fields are history variables: they are written when the row is appended (from the provenance of the
            pieces that np.concatenate put together) and only ever used as existential witnesses of the layout statement
            "row t is prefix[ga] (+) [gn] (+) suffix[gb] with t = (gn*L1 + ga)*L2 + gb".
-  * Block  (z3 datatype) one list of rows as a value (what one_mode returns and sample_tt appends to I): rows, length and the
-           prefix / suffix matrices that witness its layout.
+  * Block  (z3 datatype) one list of rows as a value (what one_mode returns and sample_tt appends to I): rows, length, the
+           prefix / suffix matrices that witness its layout and the two strides L1, L2 (numbers of prefix / suffix rows).
   * 'imat' arrays of ttvc/mx_misc.py (rows as z3 arrays) are re-used for the Latin-hypercube matrices: iterating over such a
            matrix yields its rows WITH provenance (`.src = (rows, number)`).
 """
@@ -42,9 +42,21 @@ _SRow.declare('mkrow', ('vals', IA), ('w', I), ('gn', I), ('ga', I), ('gb', I))
 SRow = _SRow.create()
 SRows = z3.ArraySort(I, SRow)
 _Block = z3.Datatype('SBlock')
-_Block.declare('mkblk', ('brows', SRows), ('blen', I), ('bpre', IM), ('bsuf', IM))
+_Block.declare('mkblk', ('brows', SRows), ('blen', I), ('bpre', IM), ('bsuf', IM), ('bl1', I), ('bl2', I))
 Block = _Block.create()
 Blocks = z3.ArraySort(I, Block)
+
+
+# position of a row inside its block: spos(nn, a, b, L1, L2) = (nn*L1 + a)*L2 + b.  Uninterpreted inside the loop proofs (the layout facts are
+# only carried along there); the definition (group 'spos') is used through single instances in quantifier-free arithmetic steps.
+spos = z3.Function('spos', I, I, I, I, I, I)
+_p1, _p2, _p3, _p4, _p5 = z3.Ints('nn!p a!p b!p L1!p L2!p')
+T.GROUPS['spos'] = [T.A([_p1, _p2, _p3, _p4, _p5], spos(_p1, _p2, _p3, _p4, _p5) == (_p1 * _p4 + _p2) * _p5 + _p3, [spos(_p1, _p2, _p3, _p4, _p5)])]
+
+
+def spos_def(nn, a, b, L1, L2):
+    """one instance of the definition of spos (group 'spos')"""
+    return spos(nn, a, b, L1, L2) == (nn * L1 + a) * L2 + b
 
 
 def ivec(n, arr):
@@ -647,3 +659,189 @@ def subscript(ex, st, base, sl_, node):
 
 
 M.subscript = subscript
+
+
+# ==============================================================================================
+# sample.sample (the chain sampler), control / shape tier.  `phi = [None] * (d + 1)` is a list whose elements are None, 1-D arrays (the
+# right-to-left marginal vectors) or 2-D arrays (the left partial products at the drawn indices): elements of the datatype PhiE
+# (kind 0 = None, 1 = vector of length n0, 2 = matrix n0 x n1).  Reading an element gives a VPhi (an array whose rank is only known as a
+# term); the consumers below oblige the kind they need.
+_PhiE = z3.Datatype('PhiE')
+_PhiE.declare('mkphi', ('kind', I), ('n0', I), ('n1', I))
+PhiE = _PhiE.create()
+
+
+class VPhi:
+    """element of the list phi read back: None / vector / matrix, known only through the term"""
+    def __init__(self, t):
+        self.t = t
+
+
+def _unwrap_phi(ex, st, v, node):
+    v = st.deref(v)
+    if v is NONE:
+        return PhiE.mkphi(0, 0, 0)
+    if isinstance(v, VArr) and v.ndim == 1:
+        return PhiE.mkphi(1, Z(v.shape[0]), 0)
+    if isinstance(v, VArr) and v.ndim == 2:
+        return PhiE.mkphi(2, Z(v.shape[0]), Z(v.shape[1]))
+    if isinstance(v, VPhi):
+        return v.t
+    raise Unsupported('storing something else than None / a vector / a matrix into the list of interface arrays')
+
+
+_orig_list_repeat = M.list_repeat
+
+
+def list_repeat(ex, st, lst, n, node):
+    if on(ex) and getattr(ex, 'opt_phi', False) and len(lst.items) == 1 and lst.items[0] is NONE:
+        used('[None] * n -> list of n None entries')
+        return st.alloc(VSeq(z3.K(I, PhiE.mkphi(0, 0, 0)), Z(n), VPhi, 'phi', _unwrap_phi))
+    return _orig_list_repeat(ex, st, lst, n, node)
+
+
+M.list_repeat = list_repeat
+_orig_binop_s = M.arr_binop
+
+
+def _need_vec(ex, st, v, ln, node, what):
+    ex.oblige(st, 'call-pre', what, z3.And(PhiE.kind(v.t) == 1, PhiE.n0(v.t) == Z(ln)), node)
+
+
+def arr_binop_sample(ex, st, op, l, r, node):
+    if on(ex) and isinstance(op, ast.MatMult) and isinstance(l, VArr) and isinstance(r, VPhi):
+        if l.ndim == 2:
+            used('A @ v for a matrix and a vector -> vector of length rows(A); requires cols(A) = len(v)')
+            _need_vec(ex, st, r, l.shape[1], node, 'matmul: right operand is a vector of length cols(A)')
+            return VArr((l.shape[0],), None, None)
+        if l.ndim == 3:
+            used('G @ v for a 3-D array and a vector -> (r1, n) matrix; requires r2 = len(v)')
+            _need_vec(ex, st, r, l.shape[2], node, 'matmul: right operand is a vector of length r2')
+            return VArr((l.shape[0], l.shape[1]), None, None)
+        raise Unsupported('@ with an element of the interface list')
+    if on(ex) and getattr(ex, 'np_scalar_div', False) and isinstance(op, ast.Div) and isinstance(l, VArr) and not isinstance(r, (VArr, VPhi)):
+        ex.need_num(st, r, node)
+        used('A / x for a NumPy scalar x -> elementwise quotient, values not interpreted (a zero divisor gives inf / nan and a warning, not an exception)')
+        return VArr(l.shape, None, None)
+    return _orig_binop_s(ex, st, op, l, r, node)
+
+
+M.arr_binop = arr_binop_sample
+_orig_method_s = M.method
+
+
+def method_sample(ex, st, recv, name, args, kwargs, node):
+    r = st.deref(recv)
+    if on(ex) and isinstance(r, VArr) and r.t is None and name == 'flatten' and not args and not kwargs and r.ndim == 2:
+        used('A.flatten() of a matrix -> vector of length rows * cols')
+        return VArr((T.mul_canon(r.shape[0], r.shape[1]),), None, None, r.dtype)
+    return _orig_method_s(ex, st, recv, name, args, kwargs, node)
+
+
+M.method = method_sample
+
+
+_orig_maximum = M.FUNCS.get('np.maximum')
+
+
+@model('np.maximum')
+def m_maximum(ex, st, args, kwargs, node):
+    a = st.deref(args[0]) if args else None
+    if on(ex) and isinstance(a, VArr) and len(args) == 2 and not kwargs and not isinstance(st.deref(args[1]), VArr):
+        ex.need_num(st, args[1], node)
+        used('np.maximum(A, x) for a scalar x -> array of the same shape (elementwise maximum, values not interpreted)')
+        out = VArr(a.shape, None, None, a.dtype)
+        out.clipped = (a, args[1])
+        return out
+    if _orig_maximum is not None:
+        return _orig_maximum(ex, st, args, kwargs, node)
+    raise Unsupported('np.maximum pattern')
+
+
+_orig_einsum_s = M.FUNCS['np.einsum']
+
+
+@model('np.einsum')
+def m_einsum_sample(ex, st, args, kwargs, node):
+    sub = args[0].concrete() if args and isinstance(args[0], VStr) else None
+    key = (sub or '').replace(' ', '')
+    if on(ex) and not kwargs:
+        ops = [st.deref(a) for a in args[1:]]
+        if key == 'ma,aib,b->mi' and len(ops) == 3 and isinstance(ops[0], VPhi) and isinstance(ops[1], VArr) and ops[1].ndim == 3 and isinstance(ops[2], VPhi):
+            L, G, Rv = ops
+            used("np.einsum('ma,aib,b->mi', L, G, v) -> (m, n) matrix; requires L: (m, r1), v: (r2,)")
+            ex.oblige(st, 'call-pre', 'einsum: left operand is a matrix with r1 columns', z3.And(PhiE.kind(L.t) == 2, PhiE.n1(L.t) == Z(G.shape[0])), node)
+            _need_vec(ex, st, Rv, G.shape[2], node, 'einsum: right operand is a vector of length r2')
+            out = VArr((PhiE.n0(L.t), G.shape[1]), None, None)
+            out.cond_of = (L, G, Rv)
+            return out
+        if key == 'il,lij->ij' and len(ops) == 2 and isinstance(ops[0], VPhi) and isinstance(ops[1], VArr) and ops[1].ndim == 3:
+            L, X3 = ops
+            used("np.einsum('il,lij->ij', L, X) -> (m, r2) matrix; requires L: (m, r1), X: (r1, m, r2)")
+            ex.oblige(st, 'call-pre', 'einsum: left operand is a matrix (m, r1) matching the gathered core (r1, m, r2)',
+                      z3.And(PhiE.kind(L.t) == 2, PhiE.n1(L.t) == Z(X3.shape[0]), PhiE.n0(L.t) == Z(X3.shape[1])), node)
+            return VArr((X3.shape[1], X3.shape[2]), None, None)
+    return _orig_einsum_s(ex, st, args, kwargs, node)
+
+
+_orig_index_s = M.arr_index
+
+
+def arr_index_sample(ex, st, a, sl_, node):
+    if on(ex) and isinstance(a, VArr) and a.ndim == 3 and isinstance(sl_, ast.Tuple) and len(sl_.elts) == 2 and _full(sl_.elts[0]) \
+            and not isinstance(sl_.elts[1], ast.Slice):
+        iv = st.deref(ex.ev(sl_.elts[1], st))
+        if isinstance(iv, VArr) and iv.ndim == 1 and iv.dtype == 'i':
+            used('G[:, ind] with an integer vector -> (r1, len ind, r2); requires the entries to be mode indices of G')
+            if iv.tag == 'ivec' and iv.t is not None and not callable(iv.t):
+                ex.oblige(st, 'safety', 'gathered-mode-indices-in-range',
+                          z3.ForAll([_i], z3.Implies(z3.And(0 <= _i, _i < Z(iv.shape[0])), z3.And(0 <= iv.t[_i], iv.t[_i] < Z(a.shape[1]))), patterns=[iv.t[_i]]), node)
+            st.ghost['gathers'] = st.ghost.get('gathers', []) + [(a, iv)]
+            return VArr((a.shape[0], iv.shape[0], a.shape[2]), None, None)
+    return _orig_index_s(ex, st, a, sl_, node)
+
+
+M.arr_index = arr_index_sample
+_orig_listcomp = M.listcomp
+
+
+def listcomp_draws(ex, st, e):
+    """[rand.choice(n, p=f(pi)) for pi in P]: one scalar draw per row of P, in row order"""
+    g = e.generators[0] if len(e.generators) == 1 else None
+    call = e.elt
+    if not (on(ex) and g is not None and not g.ifs and isinstance(call, ast.Call) and isinstance(call.func, ast.Attribute) and call.func.attr == 'choice'
+            and len(call.args) == 1 and [k.arg for k in call.keywords] == ['p']):
+        return _orig_listcomp(ex, st, e)
+    gen = st.deref(ex.ev(call.func.value, st))
+    P = st.deref(ex.ev(g.iter, st))
+    if not (isinstance(gen, R.VGen) and isinstance(P, VArr) and P.ndim == 2):
+        return _orig_listcomp(ex, st, e)
+    pop = ex.need_num(st, ex.ev(call.args[0], st), e)
+    if not is_intsort(pop):
+        raise Unsupported('Generator.choice: population is not an integer')
+    # the probability expression, evaluated on a generic row
+    saved = dict(st.vars)
+    try:
+        ex.assign(g.target, VArr((P.shape[1],), None, None, P.dtype), st)
+        pv = st.deref(ex.ev(call.keywords[0].value, st))
+    finally:
+        for k in list(st.vars):
+            if k not in saved:
+                del st.vars[k]
+            else:
+                st.vars[k] = saved[k]
+    if not (isinstance(pv, VArr) and pv.ndim == 1):
+        raise Unsupported('Generator.choice: probabilities are not a vector')
+    used('[rand.choice(n, p=f(row)) for row in P] -> one index in [0, n) per row of P, drawn in row order; requires n >= 1 and len(p) = n')
+    ex.oblige(st, 'call-pre', 'choice-from-a-non-empty-population', Z(pop) >= 1, e)
+    ex.oblige(st, 'call-pre', 'choice-probabilities-have-the-length-of-the-population', Z(pv.shape[0]) == Z(pop), e)
+    arr = ex.fresh('draws', IA)
+    m = Z(P.shape[0])
+    st.assume(z3.ForAll([_i], z3.Implies(z3.And(0 <= _i, _i < m), z3.And(0 <= arr[_i], arr[_i] < Z(pop))), patterns=[arr[_i]]))
+    nd0 = st.ghost.get('ndraw', z3.IntVal(0))
+    st.ghost['drawlog'] = st.ghost.get('drawlog', []) + [dict(gen=gen, method='choice', params=(Z(pop), True), shape=[], out=arr, idx=nd0, family=m, rows_of=P)]
+    st.ghost['ndraw'] = nd0 + m
+    return st.alloc(VSeq(arr, m, lambda t: t, tag='int'))
+
+
+M.listcomp = listcomp_draws
